@@ -7,6 +7,7 @@ import (
 	"go/types"
 	"os"
 	"sort"
+	"strings"
 
 	"golang.org/x/tools/go/ssa"
 )
@@ -53,6 +54,7 @@ type Stats struct {
 	ReachedEnd    int
 	BranchQueries int
 	CrossChecked  int
+	CrossPruned   int
 	CrossDisagree int
 	CrossUnknown  int
 }
@@ -95,7 +97,9 @@ type Ctx struct {
 	cross      []*Solver
 	crossEvery []int
 	crossN     int
+	crossBr    int
 	where      *ssa.Function
+	dbgStack   []string
 	facts      map[*Term]bool
 	maxDepth   int
 }
@@ -108,8 +112,9 @@ type inputRec struct {
 }
 
 type shaApp struct {
-	in  []*Term
-	out []*Term
+	in       []*Term
+	out      []*Term
+	concrete bool
 }
 
 type RunCfg struct {
@@ -280,8 +285,12 @@ func (c *Ctx) branch(cond *Term) bool {
 	if c.maxDepth > 0 && len(c.trail) >= c.maxDepth {
 		panic(depthLimit{})
 	}
-	if dbgWhere && c.where != nil {
-		c.stats.Funcs["@decision in "+c.where.String()]++
+	if dbgWhere {
+		k := len(c.dbgStack) - 4
+		if k < 0 {
+			k = 0
+		}
+		c.stats.Funcs["@decision in "+strings.Join(c.dbgStack[k:], " > ")]++
 	}
 	c.stats.BranchQueries++
 	d := &Decision{N: 2, IsBr: true, Models: make([]Model, 2)}
@@ -300,6 +309,10 @@ func (c *Ctx) branch(cond *Term) bool {
 			d.Models[1-first] = m
 		case Unsat:
 			d.Order = []int{first}
+			if !c.crossPruned(other) {
+				d.Order = []int{first, 1 - first}
+				d.Models[1-first] = nil
+			}
 		default:
 			d.Order = []int{first, 1 - first}
 			d.Models[1-first] = nil
@@ -308,6 +321,12 @@ func (c *Ctx) branch(cond *Term) bool {
 	} else {
 		r1, m1 := c.check(cond, c.cfg.BranchTimeoutMs)
 		r0, m0 := c.check(c.st.Not(cond), c.cfg.BranchTimeoutMs)
+		if r1 == Unsat && !c.crossPruned(cond) {
+			r1, m1 = Unknown, nil
+		}
+		if r0 == Unsat && !c.crossPruned(c.st.Not(cond)) {
+			r0, m0 = Unknown, nil
+		}
 		if r1 != Unsat {
 			d.Order = append(d.Order, 1)
 			d.Models[1] = m1
@@ -336,6 +355,33 @@ func (c *Ctx) branch(cond *Term) bool {
 		c.pc = append(c.pc, c.st.Not(cond))
 	}
 	return first == 1
+}
+
+// crossPruned: cross-solver tier for branch sides the primary solver found infeasible (a wrong `unsat` there would silently
+// drop a sub-tree). Every k-th such verdict is decided again by each independent back end; false = a back end disagrees, and
+// the side is then explored as unproved instead of being pruned.
+func (c *Ctx) crossPruned(side *Term) bool {
+	if len(c.cross) == 0 {
+		return true
+	}
+	c.crossBr++
+	ok := true
+	for i, cs := range c.cross {
+		if c.crossBr%(4*c.crossEvery[i]) != 0 {
+			continue
+		}
+		conj := append(append([]*Term{}, c.pc...), side)
+		r2, _ := cs.Check(conj, c.cfg.BranchTimeoutMs)
+		c.stats.CrossPruned++
+		if r2 == Unknown {
+			c.stats.CrossUnknown++
+		} else if r2 != Unsat {
+			c.stats.CrossDisagree++
+			c.stats.Unproved++
+			ok = false
+		}
+	}
+	return ok
 }
 
 func (c *Ctx) installModel(m Model) {
